@@ -30,30 +30,91 @@ def desc_from_spec(spec):
                 a.st(a.ge(x, b['lo']))
             if b.get('hi') is not None:
                 a.st(a.le(x, b['hi']))
-        for row in spec.get('rows', []):
-            e = expr(a, xs, Y, zs, row['e'])
-            rhs = arr(row['rhs']) if isinstance(row['rhs'], list) else row['rhs']
-            c = {'le': a.le, 'ge': a.ge, 'eq': a.eq}[row['sense']](e, rhs)
-            a.note('row', e, rhs, row['sense'])
-            a.st(c, forall=(sets[row['set']] if row.get('set') is not None else None))
-        ob = spec['obj']
-        if ob.get('pieces'):
-            f = a.maxof if ob['pw'] == 'max' else a.minof
-            e = f(*[expr(a, xs, Y, zs, p) for p in ob['pieces']])
-            if ob.get('plus') is not None:
-                e = e + expr(a, xs, Y, zs, ob['plus'])
+        hist = spec.get('history', []) if a.kind == 'real' else []
+        real = a.kind == 'real'
+
+        def objective():
+            ob = spec['obj']
+            if ob.get('pieces'):
+                f = a.maxof if ob['pw'] == 'max' else a.minof
+                e = f(*[expr(a, xs, Y, zs, p) for p in ob['pieces']])
+                if ob.get('plus') is not None:
+                    e = e + expr(a, xs, Y, zs, ob['plus'])
+            else:
+                e = expr(a, xs, Y, zs, ob['e'])
+            k = ob['kind']
+            a.note('obj', e, None, k)
+            if k == 'min':
+                a.min(e)
+            elif k == 'max':
+                a.max(e)
+            elif k == 'minmax':
+                a.minmax(e, sets[ob['set']])
+            else:
+                a.maxmin(e, sets[ob['set']])
+
+        def decoy():
+            # a throw-away robust constraint with its own set: defines and formulates another set in between
+            d = (zs[0] * 1.0 + xs[0].sum() * 0.0 <= 100.0) if zs else None
+            if d is not None:
+                d.forall(zs[0] >= -7.0, zs[0] <= 7.0, a.rso.norm(zs[0].reshape((zs[0].size,)), 1) <= 9.0)
+
+        if 'objective_first' in hist or 'formulate_between' in hist or 'solve_between' in hist:
+            objective()
+            obj_done = True
         else:
-            e = expr(a, xs, Y, zs, ob['e'])
-        k = ob['kind']
-        a.note('obj', e, None, k)
-        if k == 'min':
-            a.min(e)
-        elif k == 'max':
-            a.max(e)
-        elif k == 'minmax':
-            a.minmax(e, sets[ob['set']])
+            obj_done = False
+        rows = spec.get('rows', [])
+        if 'late_forall' in hist:
+            built = []
+            for row in rows:
+                e = expr(a, xs, Y, zs, row['e'])
+                rhs = arr(row['rhs']) if isinstance(row['rhs'], list) else row['rhs']
+                c = {'le': a.le, 'ge': a.ge, 'eq': a.eq}[row['sense']](e, rhs)
+                a.note('row', e, rhs, row['sense'])
+                built.append((c, row))
+            for c, row in reversed(built):
+                if row.get('set') is not None and hasattr(c, 'forall'):
+                    c.forall(*a.sets[sets[row['set']]])
+                decoy()
+            for c, row in built:
+                a.st(c)
         else:
-            a.maxmin(e, sets[ob['set']])
+            for ri, row in enumerate(rows):
+                if 'decoy_sets' in hist:
+                    decoy()
+                e = expr(a, xs, Y, zs, row['e'])
+                rhs = arr(row['rhs']) if isinstance(row['rhs'], list) else row['rhs']
+                c = {'le': a.le, 'ge': a.ge, 'eq': a.eq}[row['sense']](e, rhs)
+                a.note('row', e, rhs, row['sense'])
+                if 'decoy_sets' in hist:
+                    decoy()
+                a.st(c, forall=(sets[row['set']] if row.get('set') is not None else None))
+                if 'decoy_sets' in hist:
+                    decoy()
+                if 'formulate_between' in hist:
+                    a.m.do_math()
+                    a.m.do_math(primal=False)
+                    a.m.do_math()
+                if 'solve_between' in hist and ri == 0:
+                    import warnings
+                    from .util import quiet
+                    with quiet():
+                        a.m.solve(display=False)
+                        try:
+                            a.m.get()
+                        except Exception:
+                            pass
+                if 'extra_decl' in hist and ri == 0:
+                    a.m.do_math() if obj_done else None
+                    a.m.dvar(2)
+                    a.m.rvar(1)
+        if not obj_done:
+            objective()
+        if 'formulate_twice' in hist:
+            a.m.do_math()
+            a.m.do_math(primal=False)
+            a.m.pupdate = a.m.pupdate
     return desc
 
 
